@@ -3,6 +3,9 @@
 the property's check responded.  Output is pasted into DESIGN.md §9."""
 import glob, json, os, re
 rows = []
+# first runs whose verdict was about something else than the seeded change (the scratch worktree predated a repair of /repo)
+STALE_FIRST = {'C17': 'missed (the alarm of the first run was the then-unrepaired GET 0)', 'C01b': 'failing input (first run also saw the then-unrepaired GET 0)',
+               'C02': 'failing input (run by hand, VERIF_SEED=1)', 'C08b': 'missed'}
 for d in sorted(glob.glob('/verif/seeded/*/')):
     name = os.path.basename(d.rstrip('/'))
     try:
@@ -27,9 +30,12 @@ for d in sorted(glob.glob('/verif/seeded/*/')):
             verdict = 'caught with a failing input' + (': `' + fi.split('failing input:')[1].strip()[:110].replace('|', '/') + '…`' if fi else '')
         else:
             verdict = '**missed**'
-    m2 = m.get('recheck')
-    if m2:
-        verdict += f' → after strengthening: {m2}'
-    rows.append(f"| {name} | {title[:120]} | {', '.join(os.path.basename(f) for f in files)} | {verdict} |")
-print('| seed | change | file(s) | response of `./check <prop> quick` |\n|---|---|---|---|')
+    m2 = m.get('recheck') or ''
+    m2 = re.sub(r' \(re-run at /verif \w+\)', '', m2)
+    first = 'missed' if 'missed' in verdict else 'broken obligations only' if 'no failing input' in verdict else 'failing input' if 'caught' in verdict else verdict
+    if name in STALE_FIRST:
+        first = STALE_FIRST[name]
+    final = m2 or verdict
+    rows.append(f"| {name} | {title[:110]} | {', '.join(os.path.basename(f) for f in files)} | {first} | {final[:190]} |")
+print('| seed | change | file(s) | first run | current check |\n|---|---|---|---|---|')
 print('\n'.join(rows))
